@@ -10,7 +10,7 @@ from . import coll_drivers  # noqa: F401
 
 TRACE = "CollectionTrace"
 
-METAS = [{}, {"a": 1}, {"lab": "x", "n": [1, 2, 3], "nested": {"k": None, "t": True, "f": 1.5}},
+METAS = [{}, {"a": 1}, {"big": [2 ** 53, 2 ** 53 + 1, -(2 ** 60), 2 ** 63 - 1], "nested": {"id": 9007199254740993}, "f": 1e300}, {"lab": "x", "n": [1, 2, 3], "nested": {"k": None, "t": True, "f": 1.5}},
          {"unicode": "café 中", "empty": [], "s": "with \"quotes\" and \\ backslash"},
          {"list": [{"a": [1, [2, [3]]]}, "z", 0, -1, 1e3], "big": 2 ** 40}, {"protocol": "dilution", "enzyme": "MboI", "cell-type": "GM12878"}]
 ASSEMBLIES = ["hg19", "mm10", "T2T-CHM13v2.0", "my assembly", "dm6_r6.40"]
@@ -31,7 +31,8 @@ def addcols(px, ncols, rng):
 def mk(rng, table, mode, px, k):
     cols = [["count"], ["count"], ["count", "x"], ["count", "x", "y"]][k % 4]
     px = addcols(px, len(cols), rng)
-    forms = ["frame", "iter", "dict", "iter_dict", "frame_shuffled", "list"] + (["array"] if mode == "symm" and cols == ["count"] else ["iter"])
+    forms = ["frame", "iter", "dict", "iter_dict", "frame_shuffled", "list", "iter_unsorted", "iter_dict_unsorted"] + \
+        (["array"] if mode == "symm" and cols == ["count"] else ["iter"])
     form = forms[k % len(forms)]
     mi = k % (len(METAS) + 1)
     dts = [0, 1, 2] + ([3] if "x" in cols else []) + ([4] if "y" in cols else [])
@@ -41,7 +42,11 @@ def mk(rng, table, mode, px, k):
             "assembly_given": k % 3 != 0, "assembly": ASSEMBLIES[k % len(ASSEMBLIES)] if k % 3 != 0 else "unknown",
             "h5": k % len(coll_drivers.H5OPTS), "dt": dts[k % len(dts)],
             "open": ["path", "uri", "handle"][k % 3], "group": "/" if k % 5 else "/sub/grp",
-            "scale": 4 if k % 7 == 3 else 1}           # float64 value columns holding multiples of 0.25
+            "scale": 4 if k % 7 == 3 else 1,           # float64 value columns holding multiples of 0.25
+            # row labels of the frames handed in, dtype of their ID columns, which per-chunk checks accompany ensure_sorted
+            "labels": ["default", "perm", "default", "offset"][(k // 3) % 4] if form != "array" else "default",
+            "id_dtype": ["int64", "int32", "int64", "uint8", "int16", "int8"][(k // 2) % 6],
+            "checks": [[True, True, True], [False, False, False], [True, False, False], [False, False, True]][(k // 5) % 4]}
     return "cr.roundtrip", case
 
 
@@ -67,6 +72,16 @@ def cases(tier, seed):
             for px in ss:
                 yield mk(rng, table, mode, px, k)
                 k += 1
+    # more bins than a narrow ID dtype can multiply: records within the chunks unsorted, create() sorts them
+    wide = gen.binnify([12, 8], 1)
+    for j in range(12 if tier == "quick" else 120):
+        mode = "symm" if j % 2 else "square"
+        drv, case = mk(rng, wide, mode, gen.random_store(rng, len(wide), mode, density=0.15, maxval=9), k)
+        case.update({"form": ["iter_unsorted", "iter_dict_unsorted", "frame_shuffled"][j % 3],
+                     "id_dtype": ["uint8", "int8", "int16", "int32"][j % 4], "scale": 1, "cols": ["count"],
+                     "px": [p[:3] for p in case["px"]], "dt": 0})
+        yield drv, case
+        k += 1
     if tier == "thorough":
         for _ in range(1500):
             lens = [rng.randint(1, 9) for _ in range(rng.randint(1, 4))]
